@@ -150,6 +150,8 @@ impl OsString {
 pub struct PathBuf { _p: u8 }
 /// bytes of the file at a path (the disk is not modified during the upload)
 pub uninterp spec fn disk(path: Seq<char>) -> Seq<u8>;
+/// prophecy, unconstrained: the file system itself does not fail (an existing file opens, a read returns)
+pub uninterp spec fn disk_reliable() -> bool;
 pub mod std {
 pub mod io {
     use vstd::prelude::*;
@@ -165,7 +167,7 @@ pub mod io {
 pub mod os { pub mod unix { pub mod fs { pub trait FileExt {} } } }
 pub mod fs {
     use vstd::prelude::*;
-    use crate::{Result, disk};
+    use crate::{Result, disk, disk_reliable, fs_exists};
     use crate::std::io::SeekFrom;
     /// an open regular file: which path it was opened on, and its cursor (A2: the disk does not change, no short reads)
     pub struct File { pub path: Ghost<Seq<char>>, pub pos: Ghost<nat> }
@@ -174,6 +176,7 @@ pub mod fs {
         #[verifier::external_body]
         pub fn open(p: &String) -> (r: Result<File>)
             ensures r matches Ok(f) ==> f.path@ == p@ && f.pos@ == 0,
+                (disk_reliable() && fs_exists(p@)) ==> r is Ok,
         { unimplemented!() }
         /// `Seek::seek(pos)?`: `End(0)` moves to the end and returns the size; `Start(p)` moves to p and returns p
         #[verifier::external_body]
@@ -207,6 +210,7 @@ pub mod fs {
                     &&& n as int == (if avail < old(buf)@.len() { avail } else { old(buf)@.len() as int })
                     &&& forall|i: int| 0 <= i < n ==> final(buf)@[i] == disk(self.path@)[offset as int + i]
                 }),
+                disk_reliable() ==> r is Ok,
         { unimplemented!() }
     }
 } }
